@@ -29,8 +29,8 @@ from sim.canon import canon_table, describe_diff, tables_equal
 from sim.core import EventLog, SimAbort, Stats, Violation, digest, result_ok, result_violation, stream
 
 PROP = "C19"
-STYLES_SINGLE = ["eval", "transform", "rshift", "ex", "ex_descr"]
-STYLES_MULTI = ["eval", "ex"]
+STYLES_SINGLE = ["eval", "transform", "rshift", "ex", "ex_descr", "eval_fresh"]
+STYLES_MULTI = ["eval", "ex", "eval_fresh"]
 
 
 # ---------------------------------------------------------------- snapshots ---------------------------
@@ -150,6 +150,8 @@ def generate(run_seed: int, cfg: Dict[str, Any]) -> Dict[str, Any]:
         op = {"id": i, "client": client, "kind": "eval", "pipe": pi, "backend": backend, "style": style, "variant": variant}
         if style == "eval" and ro.random() < 0.25:
             op["extra"] = True
+        if style == "eval_fresh":
+            op.pop("abort_at", None)
         if style in ("eval", "transform", "rshift") and ro.random() < 0.3:
             # the very pipeline object that ex() uses (built on data()/descr() captures) applied to explicitly passed data
             op["cap"] = True
@@ -351,7 +353,8 @@ def _run(scn, log: EventLog, stats: Stats):
             if isinstance(o, Exception):
                 stats.probe("pipeline-rejected-by-builder")
                 continue
-            ident = (pi, backend, style, variant)
+            # eval() with a brand-new model object is still "the same pipeline on the same inputs": one identity with eval()
+            ident = (pi, backend, "eval" if style == "eval_fresh" else style, variant)
             abort_at = op.get("abort_at")
             exc = None
             res = None
@@ -366,6 +369,12 @@ def _run(scn, log: EventLog, stats: Stats):
             try:
                 if style == "eval":
                     res = o.eval(inputs) if backend == "pandas" else o.eval(inputs, data_model=real_pl)
+                elif style == "eval_fresh":
+                    import data_algebra.pandas_model
+
+                    cold = data_algebra.pandas_model.PandasModel() if backend == "pandas" else \
+                        data_algebra.polars_model.PolarsModel(use_lazy_eval=kn["polars_lazy_eval"])
+                    res = o.eval(inputs, data_model=cold)
                 elif style == "transform":
                     res = o.transform(inputs[tabs[0]]) if backend == "pandas" else o.transform(inputs[tabs[0]], data_model=real_pl)
                 elif style == "rshift":
